@@ -6,7 +6,7 @@
 //	key  <algo> <rootid> <pkg> <name> <cmd> <ins> <files> <outs> <deps> <fp> <multiplatform>
 //	      ins: hex,hex  files: hexpath:hexcontent|hexpath:! (absent)  outs: hextype:hexid
 //	      deps: hex,hex  fp: hexk:hexv
-//	build <algo> <pkg> <hexpath> <hexcontent|!> <hexcontent|!> <hexcmd>
+//	build <algo> <pkg> <hexpath> <hexcontent|!> <hexcontent|!> <hexcmd> [keepmtime]
 //	      the path a BUILD takes (execution.NewExecutor -> hashing.NewTargetHasher(graph).SetTargetChangeHash): targets a and b
 //	      of <pkg> both list input <hexpath>, b depends on a; ONE hasher: the file holds the first content (! = absent) when a is
 //	      hashed and the second when b is hashed (a's command rewrote / created / removed it); answers the two keys
@@ -129,8 +129,17 @@ func doBuild(f []string) string {
 		return "error"
 	}
 	a.OutputHash = "oh1"
+	var before os.FileInfo
+	if len(f) > 7 && f[7] == "keepmtime" {
+		before, _ = os.Stat(filepath.Join(pkgDir, p))
+	}
 	if err := put(c2); err != nil {
 		return "harness-error " + err.Error()
+	}
+	if before != nil && c2 != "!" {
+		if err := os.Chtimes(filepath.Join(pkgDir, p), before.ModTime(), before.ModTime()); err != nil {
+			return "harness-error " + err.Error()
+		}
 	}
 	if err := th.SetTargetChangeHash(b); err != nil {
 		return "error"
